@@ -406,7 +406,7 @@ func init() {
 		TrustedBase: baseTrusted,
 		Rules:       []RuleRun{{"R12", R12}, {"R22", R22("gotype")}, {"R23", R23}, {"R16", R16}, {"R20", R20}},
 		LevelText:   "Structural necessary conditions decided exhaustively over the method sets of all unfolder state types (go/types) and the bodies of the resolved methods (SSA): a missing or rejecting method makes some well-formed stream fail. This is the part of C13 that is visible in the shape of the code; the value-level part is not decided.",
-		Technique:   "method-set completeness and sibling agreement over go/types method sets; rejecting-method classification on SSA; forwarder number-class check",
+		Technique:   "method-set completeness and sibling agreement over go/types method sets; rejecting-method classification on SSA; forwarder number-class check; context-rooted stack-delta path analysis of all unfolder states (value-completion agreement, initialiser balance, propagation loop in the driver); capacity-taint; receiver-immutability of cached unfolders; alias/retention flow for by-reference strings; member-name and omit-first path rules",
 		DesignRef:   "DESIGN.md section 2 R12, section 3 C13",
 	})
 }
